@@ -623,12 +623,12 @@ Proof.
 Qed.
 
 (* the journal write of an accepted inbound frame numbered n, live counter already n + 1 *)
-Lemma persist_in_inv : forall W n r W', Out_ok W -> sin (jt W) + 1 = n -> (forall k, In k (rin (jt W)) -> k < n) ->
+Lemma persist_in_inv : forall W n r W', Out_ok W -> (forall k, In k (rin (jt W)) -> k < n) ->
   0 < n -> nin W = n + 1 -> AwOk W -> persist_in n W = (r, W') ->
   Inv W' /\ r = inl tt /\ nout W' = nout W /\ log W' = log W ++ map EStmt (persist_in_prims n)
   /\ base W' = base W /\ past W' = past W /\ ctor W' = ctor W /\ nin W' = n + 1 /\ st W' = st W.
 Proof.
-  intros W n r W' [Hc [Hs [Hr Hp]]] Hsin Hrin Hn Hnin Ha H.
+  intros W n r W' [Hc [Hs [Hr Hp]]] Hrin Hn Hnin Ha H.
   assert (Hh : has_in (jt W) n = false) by (apply has_in_false; auto).
   destruct (persist_in_ok n W Hh) as [He Hd].
   set (W2 := with_log W (log W ++ map EStmt (persist_in_prims n))) in *.
@@ -663,7 +663,6 @@ Proof.
     assert (HoW : Out_ok W) by (eapply Out_ok_ext; [| | |exact Ho]; auto).
     assert (HjW : jt W = jt w) by (unfold jt, db; rewrite Hb, Hl; reflexivity).
     destruct (persist_in_inv W (f_seq f) r w' HoW) as (I' & _ & N' & L' & B' & P' & C' & _); auto.
-    - rewrite HjW. lia.
     - rewrite HjW. intros k Hk. apply Hr in Hk. lia.
     - lia.
     - split; [|split].
@@ -768,4 +767,952 @@ Proof.
   intros f w HI s n. unfold process_seqreset, bind. rewrite set_seq_num_in. fold s.
   destruct (0 <? s); [|reflexivity].
   rewrite set_seq_num_in. fold n. destruct (0 <? n); reflexivity.
+Qed.
+
+Lemma finalize_seqreset_step : forall f w r w',
+  f_type f = TSeqReset -> Inv w -> nin w = f_a f -> (forall k, In k (rin (jt w)) -> k < f_seq f) ->
+  0 < f_seq f -> f_seq f <= f_a f -> seqreset_lag f = false ->
+  finalize f w = (r, w') -> Step w w'.
+Proof.
+  intros f w r w' Ht HI Hn Hrows Hs Hle Hlag H. pose proof HI as (Ho & (Hsi & Hr & Hp) & Ha).
+  unfold finalize in H. rewrite Ht in H. cbn [mtype_eqb] in H. munfold_in H.
+  cbn [st maxres nin nout rl dlv ctor base log past] in H.
+  destruct (f_a f - 1 <=? 0) eqn:Hz.
+  { inversion H; subst r w'. clear H.
+    eapply (Step_quiet w _ []); try reflexivity; [|cbn; rewrite app_nil_r; reflexivity].
+    split; [|split].
+    - eapply Out_ok_ext; [| | |exact Ho]; reflexivity.
+    - unfold In_ok. assert (E : jt (mkW (f_a f) (nout w) (st w) (rl w) (maxres w) (dlv w) (ctor w) (base w) (log w) (past w)) = jt w) by reflexivity.
+      rewrite E. cbn [nin]. rewrite <- Hn. auto.
+    - exact Ha. }
+  assert (Hsn : f_seq f + 1 = f_a f).
+  { unfold seqreset_lag in Hlag. lia. }
+  assert (Hgen : forall W, nout W = nout w -> base W = base w -> log W = log w -> past W = past w -> ctor W = ctor w ->
+                 nin W = f_a f -> AwOk W -> persist_in (f_seq f) W = (r, w') -> Step w w').
+  { intros W Hno Hb Hl Hpa Hc Hni HaW HP.
+    assert (HoW : Out_ok W) by (eapply Out_ok_ext; [| | |exact Ho]; auto).
+    assert (HjW : jt W = jt w) by (unfold jt, db; rewrite Hb, Hl; reflexivity).
+    destruct (persist_in_inv W (f_seq f) r w' HoW) as (I' & _ & N' & L' & B' & P' & C' & _); auto.
+    - rewrite HjW. exact Hrows.
+    - lia.
+    - eapply (Step_quiet w w' (map EStmt (persist_in_prims (f_seq f)))); try congruence.
+      apply writes_stmts. }
+  cbn [st maxres nin nout rl dlv ctor base log past] in H.
+  destruct (cstate_eqb (st w) Awaiting) eqn:Hst.
+  - assert (Hmx : 0 < maxres w). { apply Ha. destruct (st w); try discriminate; reflexivity. }
+    assert (Hmb : (0 <? maxres w) = true) by lia. rewrite Hmb in H.
+    destruct (maxres w <=? f_a f - 1).
+    + eapply Hgen; [| | | | | | |exact H]; try reflexivity. unfold AwOk. cbn. discriminate.
+    + eapply Hgen; [| | | | | | |exact H]; try reflexivity. unfold AwOk. cbn. auto.
+  - eapply Hgen; [| | | | | | |exact H]; try reflexivity. unfold AwOk. cbn. intro E. rewrite E in Hst. discriminate.
+Qed.
+
+Lemma too_low_seqreset : forall f w, f_type f = TSeqReset -> too_low f w = false.
+Proof. intros f w Ht. unfold too_low. rewrite Ht. cbn. rewrite andb_false_r. reflexivity. Qed.
+
+Lemma pm_seqreset_step : forall f w r w', f_type f = TSeqReset -> seqreset_lag f = false -> Inv w ->
+  process_message f w = (r, w') -> Step w w'.
+Proof.
+  intros f w r w' Ht Hlag HI H. pose proof HI as (Ho & HIn & Ha).
+  unfold process_message in H. cbv beta iota delta [bind get] in H.
+  rewrite (too_low_seqreset f w Ht) in H.
+  unfold catch at 1 in H.
+  destruct (pm_head f w) as [h w1] eqn:Eh.
+  (* what pm_head did *)
+  assert (Hhead : Step w w1 /\
+            (forall v, h = inl (Some v) ->
+               v = (f_seq f <=? f_a f) /\ nin w1 = f_a f /\ 0 < f_seq f
+               /\ (forall k, In k (rin (jt w1)) -> k < f_seq f))).
+  { unfold pm_head in Eh. rewrite Ht in Eh.
+    cbv beta iota delta [bind get ret raise assert_ set_st set_rl upd] in Eh. cbn [mtype_eqb] in Eh.
+    destruct (is_disc (st w)) eqn:Hd; cbn [negb] in Eh.
+    { inversion Eh; subst. split; [apply Step_refl; auto|]. intros v E; discriminate. }
+    destruct (cstate_eqb (st w) NCE) eqn:Hn.
+    { destruct (disconnect false w) as [x w2] eqn:Ed.
+      pose proof (disconnect_rel _ _ _ _ Ho Ed) as R.
+      destruct x as [[]|e]; cbn [negb] in Eh; inversion Eh; subst; (split; [apply Rel_Step; auto|intros v E; discriminate]). }
+    cbn [negb] in Eh. rewrite (process_seqreset_cases f w HI) in Eh. cbv zeta in Eh.
+    destruct (0 <? f_seq f) eqn:Hs.
+    2:{ inversion Eh; subst. split; [apply Step_refl; auto|]. intros v E; discriminate. }
+    set (wa := set_world w (f_seq f) (nout w)) in *.
+    destruct (set_world_in_inv w (f_seq f) Ho Ha ltac:(lia)) as [Ia Ra]. fold wa in Ia, Ra.
+    assert (Sa : Step w wa).
+    { eapply (Step_quiet w wa (map EStmt (set_prims (f_seq f) (nout w)))); try reflexivity; auto; try apply writes_stmts. }
+    destruct (0 <? f_a f) eqn:Hn2.
+    2:{ inversion Eh; subst. split; [exact Sa|]. intros v E; discriminate. }
+    set (wb := set_world wa (f_a f) (nout w)) in *.
+    destruct Ia as (Oa & Ina & Aa).
+    destruct (set_world_in_inv wa (f_a f) Oa Aa ltac:(lia)) as [Ib Rb].
+    change (nout wa) with (nout w) in Ib, Rb. fold wb in Ib, Rb.
+    assert (Sb : Step wa wb).
+    { eapply (Step_quiet wa wb (map EStmt (set_prims (f_a f) (nout w)))); try reflexivity; auto; try apply writes_stmts. }
+    assert (Rb2 : forall k, In k (rin (jt wb)) -> k < f_seq f).
+    { intros k Hk. unfold wb in Hk. rewrite jt_set_world in Hk. cbn [rin set_tab] in Hk.
+      apply filter_In in Hk. destruct Hk as [Hk _]. apply Ra. exact Hk. }
+    change (is_disc (st wb)) with (is_disc (st w)) in Eh. rewrite Hd in Eh.
+    destruct (check_gaps (f_seq f) wb) as [x w3] eqn:Ec.
+    pose proof (check_gaps_rel _ _ _ _ (Inv_Out _ Ib) (Inv_nin _ Ib) Ec) as R3.
+    assert (S3 : Step w w3).
+    { eapply Step_trans; [exact Sa|]. eapply Step_trans; [exact Sb|]. apply Rel_Step; auto. }
+    destruct x as [v|e]; inversion Eh; subst h w1; clear Eh.
+    - split; [exact S3|]. intros v' E. inversion E; subst v'.
+      apply check_gaps_val in Ec. change (nin wb) with (f_a f) in Ec.
+      repeat split.
+      + rewrite Ec. lia.
+      + rewrite (r_nin _ _ R3). reflexivity.
+      + lia.
+      + rewrite (r_rin _ _ R3). exact Rb2.
+    - split; [exact S3|]. intros v' E; discriminate. }
+  destruct Hhead as [S1 Hv].
+  destruct h as [[v|]|e]; try (inversion H; subst; exact S1; fail).
+  destruct (Hv v eq_refl) as (Ev & Hn1 & Hs & Hrows).
+  unfold catch, pm_dispatch in H. rewrite Ht in H. unfold ret at 1 in H.
+  destruct v.
+  - eapply Step_trans; [exact S1|].
+    eapply finalize_seqreset_step; eauto; [apply S1|lia].
+  - unfold ret in H. inversion H; subst. exact S1.
+Qed.
+
+(* ------------------------------------------------------------------ servicing a ResendRequest *)
+
+(* w' is w after sends that carry their own number (PossDup copies, gap fills): inbound side and live
+   counters frozen, the file clean, nothing original written, no counter statement *)
+Record Rel2 (w w' : world) : Prop := mkRel2 {
+  q_nin : nin w' = nin w;
+  q_nout : nout w' = nout w;
+  q_sin : sin (jt w') = sin (jt w);
+  q_rin : rin (jt w') = rin (jt w);
+  q_clean : clean w';
+  q_log : exists l, log w' = log w ++ l /\ count_both l = O
+                    /\ (forall f, In f (writes l) -> original f = false);
+  q_base : base w' = base w;
+  q_past : past w' = past w;
+  q_ctor : ctor w' = ctor w;
+  q_aw : AwOk w -> AwOk w'
+}.
+
+Lemma Rel2_refl : forall w, clean w -> Rel2 w w.
+Proof.
+  intros w Hc. constructor; auto. exists []. rewrite app_nil_r. repeat split; auto. intros f Hf; cbn in Hf; contradiction.
+Qed.
+
+Lemma Rel2_trans : forall a b c, Rel2 a b -> Rel2 b c -> Rel2 a c.
+Proof.
+  intros a b c [n1 o1 s1 i1 c1 [l1 [L1 [C1 W1]]] b1 p1 t1 a1] [n2 o2 s2 i2 c2 [l2 [L2 [C2 W2]]] b2 p2 t2 a2].
+  constructor; try congruence; auto.
+  exists (l1 ++ l2). rewrite L2, L1, app_assoc. split; [reflexivity|]. split.
+  - rewrite count_both_app, C1, C2. reflexivity.
+  - intros f Hf. rewrite writes_app in Hf. apply in_app_or in Hf. destruct Hf; auto.
+Qed.
+
+Lemma Rel2_live : forall w w1 w2, Rel2 w w1 -> live_eq w1 w2 -> (AwOk w -> AwOk w2) -> Rel2 w w2.
+Proof.
+  intros w w1 w2 [n1 o1 s1 i1 c1 L1 b1 p1 t1 a1] Hl Ha.
+  assert (Hdb : db w1 = db w2) by (apply live_eq_db; auto).
+  assert (Hj : jt w1 = jt w2) by (unfold jt; rewrite Hdb; reflexivity).
+  destruct Hl as (Cn & Co & Cb & Cl & Cp & Cc).
+  constructor.
+  - congruence.
+  - congruence.
+  - rewrite <- Hj. exact s1.
+  - rewrite <- Hj. exact i1.
+  - unfold clean. rewrite <- Hdb. exact c1.
+  - destruct L1 as [l L]. exists l. rewrite <- Cl. exact L.
+  - congruence.
+  - congruence.
+  - congruence.
+  - exact Ha.
+Qed.
+
+Lemma own_not_original : forall m n, own_number m = true -> original (out_frame m n) = false.
+Proof.
+  intros m n H. unfold own_number in H. unfold original, out_frame. cbn [f_pd f_type].
+  destruct (f_pd m); cbn; [reflexivity|]. rewrite orb_false_r in H. rewrite H. reflexivity.
+Qed.
+
+Lemma send_own_rel2 : forall m w r w', own_number m = true -> clean w -> send_msg m w = (r, w') -> Rel2 w w'.
+Proof.
+  intros m w r w' Ho Hc Hs.
+  destruct (mtype_eqb (f_type m) TTest) eqn:Ht.
+  { rewrite send_refused in Hs by auto. inversion Hs; subst. apply Rel2_refl; auto. }
+  destruct (send_gate w m) as [[s ro]|] eqn:Hg.
+  2:{ rewrite send_refused in Hs by auto. inversion Hs; subst. apply Rel2_refl; auto. }
+  rewrite (send_own w m s ro Hg Ht Ho) in Hs.
+  set (f := out_frame m (f_seq m)) in *.
+  set (W := written w s ro (nout w) f) in *.
+  assert (Hjt : jt W = jt w) by apply jt_written.
+  assert (Hdb : db W = db w) by apply db_written.
+  assert (Hor : original f = false) by (apply own_not_original; auto).
+  assert (Haw : AwOk w -> forall X, st X = s -> maxres X = maxres w -> AwOk X).
+  { intros Ha X Hst Hm Hx. rewrite Hm. apply Ha. eapply gate_awaiting; eauto. congruence. }
+  destruct (has_out (jt W) (f_seq f)) eqn:Hh.
+  - destruct (persist_out_dup f W Hh) as [Hp Hd].
+    set (W' := with_log W (log W ++ [EStmt (PInsOut f)])) in *.
+    rewrite Hp in Hs. inversion Hs; subst r w'. clear Hs.
+    assert (Hj' : jt W' = jt w) by (unfold jt at 1; rewrite Hd, Hdb; reflexivity).
+    constructor; try reflexivity.
+    + rewrite Hj'. reflexivity.
+    + rewrite Hj'. reflexivity.
+    + unfold clean. rewrite Hd, Hdb. exact Hc.
+    + exists ([EWrite f; EDrain] ++ [EStmt (PInsOut f)]).
+      split; [cbn [W' with_log W written log]; rewrite <- !app_assoc; reflexivity|].
+      split; [reflexivity|]. intros g Hg'. cbn in Hg'. destruct Hg' as [Hg'|[]]. subst g. exact Hor.
+    + intros Ha. apply (Haw Ha); reflexivity.
+  - destruct (persist_out_ok f W Hh) as [Hp Hd].
+    set (W' := with_log W (log W ++ map EStmt (persist_out_prims f))) in *.
+    rewrite Hp in Hs. inversion Hs; subst r w'. clear Hs.
+    assert (Hj' : jt W' = ins_out_tab (jt W) f) by (unfold jt at 1; rewrite Hd; reflexivity).
+    constructor; try reflexivity.
+    + rewrite Hj', Hjt. reflexivity.
+    + rewrite Hj', Hjt. reflexivity.
+    + unfold clean. rewrite Hd. reflexivity.
+    + exists ([EWrite f; EDrain] ++ map EStmt (persist_out_prims f)).
+      split; [cbn [W' with_log W written log]; rewrite <- !app_assoc; reflexivity|].
+      split; [reflexivity|]. intros g Hg'. cbn in Hg'. destruct Hg' as [Hg'|[]]. subst g. exact Hor.
+    + intros Ha. apply (Haw Ha); reflexivity.
+Qed.
+
+Definition Rel2M {A} (m : M A) : Prop := forall w r w', clean w -> m w = (r, w') -> Rel2 w w'.
+
+Lemma Rel2M_ret : forall A (a : A), Rel2M (ret a).
+Proof. intros A a w r w' Hc H. inversion H; subst. apply Rel2_refl; auto. Qed.
+Lemma Rel2M_raise : forall A e, Rel2M (@raise A e).
+Proof. intros A e w r w' Hc H. inversion H; subst. apply Rel2_refl; auto. Qed.
+Lemma Rel2M_bind : forall A B (m : M A) (k : A -> M B), Rel2M m -> (forall a, Rel2M (k a)) -> Rel2M (bind m k).
+Proof.
+  intros A B m k Hm Hk w r w' Hc H. unfold bind in H.
+  destruct (m w) as [[a|e] w1] eqn:E.
+  - specialize (Hm _ _ _ Hc E). eapply Rel2_trans; [exact Hm|]. eapply Hk; [apply Hm|exact H].
+  - inversion H; subst. eapply Hm; eauto.
+Qed.
+Lemma Rel2M_send : forall m, own_number m = true -> Rel2M (send_msg m).
+Proof. intros m Hm w r w' Hc H. eapply send_own_rel2; eauto. Qed.
+
+Lemma Rel2M_replay_loop : forall rows gfb gfe, Rel2M (replay_loop rows gfb gfe).
+Proof.
+  induction rows as [|x rows IH]; intros gfb gfe; cbn [replay_loop].
+  - apply Rel2M_ret.
+  - destruct (is_session_type (f_type x)); [apply IH|].
+    apply Rel2M_bind; [destruct (gfb <? gfe); [apply Rel2M_send; reflexivity|apply Rel2M_ret]|intros _].
+    apply Rel2M_bind; [destruct (f_pd x); [apply Rel2M_raise|apply Rel2M_ret]|intros _].
+    apply Rel2M_bind; [apply Rel2M_send; unfold own_number; cbn; apply orb_true_r|intros _].
+    apply IH.
+Qed.
+
+Lemma Inv_live : forall a b, live_eq a b -> Inv a -> AwOk b -> Inv b.
+Proof.
+  intros a b Hl (Ho & (Hs & Hr & Hp) & _) Ha.
+  assert (Hdb : db a = db b) by (apply live_eq_db; auto).
+  assert (Hj : jt a = jt b) by (unfold jt; rewrite Hdb; reflexivity).
+  split; [eapply Out_ok_live; eauto|]. split; [|exact Ha].
+  destruct Hl as (Hn & _). unfold In_ok. rewrite <- Hj, <- Hn. auto.
+Qed.
+
+Lemma count_both_set : forall i o, count_both (map EStmt (set_prims i o)) = 1%nat.
+Proof. reflexivity. Qed.
+
+Lemma resend_core_spec : forall f w r w', Inv w -> resend_core f w = (r, w') ->
+  exists l, log w' = log w ++ l /\ base w' = base w /\ past w' = past w /\ ctor w' = ctor w
+    /\ (forall g, In g (writes l) -> original g = false)
+    /\ (count_both l <> 1%nat -> Inv w' /\ nout w' = nout w).
+Proof.
+  intros f w r w' HI H. pose proof HI as (Ho & HIn & Ha). pose proof Ho as (Hc & Hso & Hro & Hpo).
+  unfold resend_core in H. cbv beta zeta iota delta [bind get] in H.
+  rewrite set_seq_num_out in H.
+  destruct (0 <? f_a f) eqn:Hb.
+  2:{ inversion H; subst. exists []. rewrite app_nil_r.
+      split; [reflexivity|]. split; [reflexivity|]. split; [reflexivity|]. split; [reflexivity|].
+      split; [intros g Hg; cbn in Hg; contradiction|]. intros _. split; [exact HI|reflexivity]. }
+  set (wb := set_world w (nin w) (f_a f)) in *.
+  assert (Ib : Inv wb) by (apply set_world_out_inv; auto; lia).
+  set (S1 := map EStmt (set_prims (nin w) (f_a f))) in *.
+  assert (Lb : log wb = log w ++ S1) by reflexivity.
+  match type of H with (let (_, _) := replay_loop ?rows ?b1 ?b2 wb in _) = _ =>
+    destruct (replay_loop rows b1 b2 wb) as [g wc] eqn:El end.
+  pose proof (Rel2M_replay_loop _ _ _ wb g wc (proj1 (Inv_Out _ Ib)) El) as Rc.
+  destruct (q_log _ _ Rc) as [l2 [L2 [C2 W2]]].
+  (* outcomes that stop between the rewind and the restore *)
+  assert (Hstop : forall wx lx, log wx = log wc ++ lx -> count_both lx = O -> (forall g0, In g0 (writes lx) -> original g0 = false) ->
+            base wx = base wc -> past wx = past wc -> ctor wx = ctor wc ->
+            exists l, log wx = log w ++ l /\ base wx = base w /\ past wx = past w /\ ctor wx = ctor w
+              /\ (forall g0, In g0 (writes l) -> original g0 = false)
+              /\ (count_both l <> 1%nat -> Inv wx /\ nout wx = nout w)).
+  { intros wx lx Lx Cx Wx Bx Px Tx. exists (S1 ++ l2 ++ lx).
+    split; [rewrite Lx, L2, Lb, <- !app_assoc; reflexivity|].
+    split; [rewrite Bx, (q_base _ _ Rc); reflexivity|].
+    split; [rewrite Px, (q_past _ _ Rc); reflexivity|].
+    split; [rewrite Tx, (q_ctor _ _ Rc); reflexivity|].
+    split.
+    - intros g0 Hg0. rewrite !writes_app in Hg0. unfold S1 in Hg0. rewrite writes_stmts in Hg0. cbn [app] in Hg0.
+      apply in_app_or in Hg0. destruct Hg0; auto.
+    - intros Hcount. exfalso. apply Hcount. rewrite !count_both_app, C2, Cx. reflexivity. }
+  destruct g as [[gb ge]|e].
+  2:{ inversion H; subst r w'. apply (Hstop wc []); auto; try (rewrite app_nil_r; reflexivity).
+      intros g0 Hg0; cbn in Hg0; contradiction. }
+  cbn [fst snd] in H. unfold assert_ in H.
+  destruct (ge <=? nout w) eqn:Hge.
+  2:{ unfold raise in H. inversion H; subst r w'. apply (Hstop wc []); auto; try (rewrite app_nil_r; reflexivity).
+      intros g0 Hg0; cbn in Hg0; contradiction. }
+  unfold ret at 1 in H.
+  (* the tail gap fill *)
+  assert (Htail : exists x wd, (if gb <? nout w then send_msg (mkF TSeqReset gb false (nout w) 1) else ret tt) wc = (x, wd)
+                               /\ Rel2 wc wd).
+  { destruct (gb <? nout w).
+    - destruct (send_msg (mkF TSeqReset gb false (nout w) 1) wc) as [x wd] eqn:Es. exists x, wd. split; auto.
+      eapply (send_own_rel2 (mkF TSeqReset gb false (nout w) 1)); [reflexivity|apply Rc|exact Es].
+    - exists (inl tt), wc. split; auto. apply Rel2_refl. apply Rc. }
+  destruct Htail as (x & wd & Et & Rd). rewrite Et in H.
+  destruct (q_log _ _ Rd) as [l3 [L3 [C3 W3]]].
+  destruct x as [[]|e].
+  2:{ inversion H; subst r w'. apply (Hstop wd l3); auto; apply Rd. }
+  rewrite set_seq_num_out in H.
+  assert (Hpb : (0 <? nout w) = true) by lia. rewrite Hpb in H.
+  assert (Rbd : Rel2 wb wd) by (eapply Rel2_trans; eauto).
+  set (we := set_world wd (nin wd) (nout w)) in *.
+  assert (Ie : Inv we).
+  { apply set_world_out_inv; [apply Rd| |apply Rbd; apply Ib|lia].
+    destruct Ib as (_ & (Hs & Hr & Hp) & _). unfold In_ok.
+    rewrite (q_sin _ _ Rbd), (q_rin _ _ Rbd), (q_nin _ _ Rbd). auto. }
+  assert (Hfin : forall wf, live_eq we wf -> AwOk wf -> (inl tt, wf) = (r, w') ->
+            exists l, log w' = log w ++ l /\ base w' = base w /\ past w' = past w /\ ctor w' = ctor w
+              /\ (forall g0, In g0 (writes l) -> original g0 = false)
+              /\ (count_both l <> 1%nat -> Inv w' /\ nout w' = nout w)).
+  { intros wf Hl Haf E. inversion E; subst r w'. clear E.
+    destruct Hl as (Fn & Fo & Fb & Fl & Fp & Fc).
+    exists (S1 ++ l2 ++ l3 ++ map EStmt (set_prims (nin wd) (nout w))).
+    split; [rewrite <- Fl; cbn [we set_world log]; rewrite L3, L2, Lb, <- !app_assoc; reflexivity|].
+    split; [rewrite <- Fb; cbn [we set_world base]; rewrite (q_base _ _ Rd), (q_base _ _ Rc); reflexivity|].
+    split; [rewrite <- Fp; cbn [we set_world past]; rewrite (q_past _ _ Rd), (q_past _ _ Rc); reflexivity|].
+    split; [rewrite <- Fc; cbn [we set_world ctor]; rewrite (q_ctor _ _ Rd), (q_ctor _ _ Rc); reflexivity|].
+    split.
+    - intros g0 Hg0. rewrite !writes_app in Hg0. unfold S1 in Hg0. rewrite !writes_stmts in Hg0. cbn [app] in Hg0.
+      rewrite app_nil_r in Hg0. apply in_app_or in Hg0. destruct Hg0; auto.
+    - intros _. split; [|rewrite <- Fo; reflexivity].
+      eapply Inv_live; [|exact Ie|exact Haf]. repeat split; auto. }
+  cbv beta iota delta [ret set_st upd] in H.
+  destruct (cstate_eqb (st we) Awaiting) eqn:Hst.
+  - apply (Hfin we); auto using live_eq_refl. apply Ie.
+  - eapply Hfin; [| |exact H]; [live_tac|]. unfold AwOk. cbn. discriminate.
+Qed.
+
+Lemma process_resend_spec : forall f w r w', Inv w -> process_resend f w = (r, w') ->
+  exists l, log w' = log w ++ l /\ base w' = base w /\ past w' = past w /\ ctor w' = ctor w
+    /\ (forall g, In g (writes l) -> original g = false)
+    /\ (count_both l <> 1%nat -> Inv w' /\ nout w' = nout w).
+Proof.
+  intros f w r w' HI H. unfold process_resend in H. cbv beta iota delta [bind get ret set_st upd] in H.
+  destruct (cstate_eqb (st w) Awaiting) eqn:Hs.
+  - eapply resend_core_spec; eauto.
+  - match type of H with resend_core f ?W = _ => set (wa := W) in * end.
+    assert (Ia : Inv wa).
+    { eapply Inv_live; [|exact HI|]; [live_tac|]. unfold AwOk. cbn. discriminate. }
+    destruct (resend_core_spec f wa r w' Ia H) as (l & L & B & P & C & Wn & K).
+    exists l. split; [exact L|]. split; [exact B|]. split; [exact P|]. split; [exact C|]. split; [exact Wn|].
+    intros Hc. destruct (K Hc) as [K1 K2]. split; [exact K1|exact K2].
+Qed.
+
+(* effects appended by an inbound ResendRequest: the whole operation is a Step unless exactly one
+   counter statement (the rewind without the restore) was executed *)
+Lemma pm_resend_step : forall f w r w', f_type f = TResend -> Inv w -> process_message f w = (r, w') ->
+  exists l, log w' = log w ++ l /\ (count_both l <> 1%nat -> Step w w').
+Proof.
+  intros f w r w' Ht HI H.
+  assert (Hs : mtype_eqb (f_type f) TSeqReset = false) by (rewrite Ht; reflexivity).
+  unfold process_message in H. cbv beta iota delta [bind get] in H.
+  assert (Hrel : forall w1, Rel w w1 -> exists l, log w1 = log w ++ l /\ (count_both l <> 1%nat -> Step w w1)).
+  { intros w1 R. destruct (r_log _ _ R) as [l [L [C W]]]. exists l. split; auto. intros _. apply Rel_Step; auto. }
+  destruct (too_low f w).
+  { apply Hrel. eapply disconnect_rel; eauto using Inv_Out. }
+  unfold catch at 1 in H.
+  destruct (pm_head f w) as [h w1] eqn:Eh.
+  assert (R1 : Rel w w1) by (eapply RelM_pm_head; eauto using Inv_Out, Inv_nin).
+  destruct h as [[v|]|e]; try (inversion H; subst; apply Hrel; auto; fail).
+  assert (I1 : Inv w1) by (apply (Rel_Step _ _ HI R1)).
+  unfold catch, pm_dispatch in H. rewrite Ht in H.
+  destruct (process_resend f w1) as [d w2] eqn:Ed.
+  destruct (process_resend_spec f w1 d w2 I1 Ed) as (l2 & L2 & B2 & P2 & C2 & W2 & K2).
+  destruct (r_log _ _ R1) as [l1 [L1 [C1 W1]]].
+  assert (Hmid : count_both l2 <> 1%nat -> Step w w2).
+  { intros Hc. destruct (K2 Hc) as [I2 N2].
+    eapply Step_trans; [apply Rel_Step; eauto|].
+    constructor; auto; try lia. exists l2. split; auto. intros g Hg Hog. rewrite (W2 g Hg) in Hog. discriminate. }
+  destruct v.
+  - destruct (count_both l2 =? 1)%nat eqn:Ec.
+    + (* aborted servicing: only the log shape is claimed *)
+      assert (Hlog : exists l3, log w' = log w2 ++ l3 /\ count_both l3 = O).
+      { unfold finalize in H. rewrite Hs in H. munfold_in H.
+        destruct (f_seq f =? nin w2).
+        2:{ cbn in H. inversion H; subst. exists []. rewrite app_nil_r. auto. }
+        cbn [st maxres nin nout rl dlv ctor base log past] in H.
+        destruct (f_seq f <=? 0).
+        { inversion H; subst. exists []. cbn. rewrite app_nil_r. auto. }
+        assert (Hp : forall W, log W = log w2 -> forall r0 w0, persist_in (f_seq f) W = (r0, w0) ->
+                       exists l3, log w0 = log w2 ++ l3 /\ count_both l3 = O).
+        { intros W LW r0 w0 HP. destruct (has_in (jt W) (f_seq f)) eqn:Hh.
+          - destruct (persist_in_dup _ _ Hh) as [E _]. rewrite E in HP. inversion HP; subst.
+            exists [EStmt (PInsIn (f_seq f))]. cbn [log with_log]. rewrite LW. auto.
+          - destruct (persist_in_ok _ _ Hh) as [E _]. rewrite E in HP. inversion HP; subst.
+            exists (map EStmt (persist_in_prims (f_seq f))). cbn [log with_log]. rewrite LW. auto. }
+        cbn [st maxres nin nout rl dlv ctor base log past] in H.
+        destruct (cstate_eqb (st w2) Awaiting).
+        - destruct (0 <? maxres w2).
+          + destruct (maxres w2 <=? f_seq f); eapply Hp; [|exact H| |exact H]; reflexivity.
+          + inversion H; subst. exists []. cbn. rewrite app_nil_r. auto.
+        - eapply Hp; [|exact H]; reflexivity. }
+      destruct Hlog as [l3 [L3 C3]].
+      exists (l1 ++ l2 ++ l3). split; [rewrite L3, L2, L1, <- !app_assoc; reflexivity|].
+      intros Hc. exfalso. apply Hc. rewrite !count_both_app, C1, C3. apply Nat.eqb_eq in Ec. lia.
+    + assert (Hc2 : count_both l2 <> 1%nat) by (apply Nat.eqb_neq; exact Ec).
+      specialize (Hmid Hc2).
+      destruct (finalize_step f w2 r w' Hs (s_inv _ _ Hmid) H) as [S3 [N3 [l3 [L3 [W3 C3]]]]].
+      exists (l1 ++ l2 ++ l3). split; [rewrite L3, L2, L1, <- !app_assoc; reflexivity|].
+      intros _. eapply Step_trans; eauto.
+  - unfold ret in H. inversion H; subst r w'.
+    exists (l1 ++ l2). split; [rewrite L2, L1, <- !app_assoc; reflexivity|].
+    intros Hc. apply Hmid. rewrite count_both_app, C1 in Hc. exact Hc.
+Qed.
+
+(* ------------------------------------------------------------------ known-finding classes and the main invariant *)
+
+(* effects appended to the log by one operation *)
+Definition new_effects (w : world) (o : op) : list effect := skipn (length (log w)) (log (run_op w o)).
+
+(* D11: an inbound SequenceReset that is finalized (MsgSeqNum <= NewSeqNo, NewSeqNo > 1) and whose NewSeqNo is not
+   its own MsgSeqNum + 1: the stored inbound counter becomes the frame's own number *)
+Definition KF_D11 (o : op) : bool :=
+  match o with OIn f => mtype_eqb (f_type f) TSeqReset && seqreset_lag f | _ => false end.
+
+(* D20: the application sends a frame that carries its own number (SequenceReset, PossDup): journaled under that
+   number, the live counter does not move *)
+Definition KF_D20 (o : op) : bool :=
+  match o with OSend m => own_number m | _ => false end.
+
+(* D12: a ResendRequest whose servicing rewinds the outbound counter and is not completed (exactly one
+   `UPDATE session SET inboundSeqNo=?, outboundSeqNo=?` during the operation: the rewind without the restore) *)
+Definition KF_D12 (w : world) (o : op) : bool :=
+  match o with
+  | OIn f => mtype_eqb (f_type f) TResend && Nat.eqb (count_both (new_effects w o)) 1
+  | _ => false
+  end.
+
+Fixpoint class_free (w : world) (h : list op) : bool :=
+  match h with
+  | [] => true
+  | o :: h' => negb (KF_D11 o) && negb (KF_D20 o) && negb (KF_D12 w o) && class_free (run_op w o) h'
+  end.
+
+Lemma skipn_app_exact : forall A (l1 l2 : list A), skipn (length l1) (l1 ++ l2) = l2.
+Proof. induction l1; intros; cbn; auto. Qed.
+
+Lemma db_boot : forall r t sent, db (boot r t sent) = mkDb t t.
+Proof. reflexivity. Qed.
+
+Lemma restart_inv : forall w, Inv w ->
+  Inv (restart w) /\ nin (restart w) = nin w /\ nout (restart w) = nout w /\ allwire (restart w) = allwire w
+  /\ st (restart w) = Disc /\ ctor (restart w) = ctor w /\ log (restart w) = [] /\ jt (restart w) = jt w.
+Proof.
+  intros w ((Hc & Hso & Hro & Hpo) & (Hsi & Hri & Hpi) & Ha).
+  unfold restart.
+  assert (Hj : jt (boot (ctor w) (committed (db w)) (allwire w)) = jt w).
+  { unfold jt at 1. rewrite db_boot. cbn [cur]. exact Hc. }
+  assert (Hn : nin (boot (ctor w) (committed (db w)) (allwire w)) = nin w).
+  { cbn [boot nin]. rewrite Hc. exact Hsi. }
+  assert (Hno : nout (boot (ctor w) (committed (db w)) (allwire w)) = nout w).
+  { cbn [boot nout]. rewrite Hc. exact Hso. }
+  set (B := boot (ctor w) (committed (db w)) (allwire w)) in *.
+  assert (HI : Inv B).
+  { split; [|split].
+    - split; [unfold clean; reflexivity|]. rewrite Hj, Hno. auto.
+    - unfold In_ok. rewrite Hj, Hn. auto.
+    - unfold AwOk. cbn. discriminate. }
+  split; [exact HI|]. split; [exact Hn|]. split; [exact Hno|].
+  split; [unfold allwire; cbn [B boot past log writes]; rewrite app_nil_r; reflexivity|].
+  repeat split; auto.
+Qed.
+
+(* one operation outside the classes keeps the invariant; unless it is a restart it is a Step *)
+Lemma op_step : forall w o, Inv w -> KF_D11 o = false -> KF_D20 o = false -> KF_D12 w o = false ->
+  Inv (run_op w o) /\ (o <> ORestart -> Step w (run_op w o)).
+Proof.
+  intros w o HI H11 H20 H12.
+  assert (Hgo : o <> ORestart -> Step w (run_op w o)).
+  { intros Hnr. unfold run_op. destruct o as [|f|m|b|]; cbn [step].
+    - unfold set_st, upd. cbn [snd]. apply Rel_Step; auto.
+      eapply Rel_live; [apply Rel_refl; apply HI|live_tac|]. intros _ E. cbn in E. discriminate.
+    - destruct (process_message f w) as [r w'] eqn:E. cbn [snd].
+      destruct (mtype_eqb (f_type f) TSeqReset) eqn:Hs.
+      + cbn [KF_D11] in H11. rewrite Hs in H11. cbn in H11.
+        eapply pm_seqreset_step; eauto. destruct (f_type f); try discriminate; reflexivity.
+      + destruct (mtype_eqb (f_type f) TResend) eqn:Hr.
+        * assert (Ht : f_type f = TResend) by (destruct (f_type f); try discriminate; reflexivity).
+          destruct (pm_resend_step f w r w' Ht HI E) as [l [L K]]. apply K.
+          cbn [KF_D12] in H12. rewrite Hr in H12. cbn [andb] in H12.
+          unfold new_effects, run_op in H12. cbn [step] in H12. rewrite E in H12. cbn [snd] in H12.
+          rewrite L, skipn_app_exact in H12. apply Nat.eqb_neq. exact H12.
+        * eapply pm_plain_step; eauto.
+    - destruct (send_msg m w) as [r w'] eqn:E. cbn [snd]. cbn [KF_D20] in H20.
+      apply Rel_Step; auto. eapply send_orig_rel; eauto. apply HI.
+    - destruct (disconnect b w) as [r w'] eqn:E. cbn [snd].
+      apply Rel_Step; auto. eapply disconnect_rel; eauto. apply HI.
+    - contradiction. }
+  split; [|exact Hgo].
+  destruct o; try (apply Hgo; discriminate).
+  unfold run_op. cbn [step upd snd]. apply restart_inv; auto.
+Qed.
+
+Lemma fresh_inv : forall r, Inv (fresh r).
+Proof.
+  intros r. unfold Inv, Out_ok, In_ok, AwOk, clean. cbn. repeat split; try lia; try contradiction; try discriminate.
+Qed.
+
+Lemma run_inv : forall h w, Inv w -> class_free w h = true -> Inv (run w h).
+Proof.
+  induction h as [|o h IH]; intros w HI Hc; cbn [run fold_left]; [exact HI|].
+  cbn [class_free] in Hc. apply andb_prop in Hc. destruct Hc as [Hc Hrest].
+  apply andb_prop in Hc. destruct Hc as [Hc H12]. apply andb_prop in Hc. destruct Hc as [H11 H20].
+  apply negb_true_iff in H11, H20, H12.
+  apply IH; [exact (proj1 (op_step w o HI H11 H20 H12))|exact Hrest].
+Qed.
+
+Lemma class_free_app : forall h1 h2 w, class_free w (h1 ++ h2) = true ->
+  class_free w h1 = true /\ class_free (run w h1) h2 = true.
+Proof.
+  induction h1 as [|o h1 IH]; intros h2 w H; cbn [app class_free run fold_left] in *; [auto|].
+  apply andb_prop in H. destruct H as [Hc Hrest]. destruct (IH _ _ Hrest) as [A B].
+  rewrite Hc, A. auto.
+Qed.
+
+Lemma Inv_stored_eq : forall w, Inv w -> Stored_eq w.
+Proof. intros w ((_ & Hso & _) & (Hsi & _) & _). split; auto. Qed.
+
+Lemma stored_eq_partial : forall r h1 h2, class_free (fresh r) (h1 ++ h2) = true -> Stored_eq (run (fresh r) h1).
+Proof.
+  intros r h1 h2 H. apply class_free_app in H. destruct H as [H _].
+  apply Inv_stored_eq. apply run_inv; auto using fresh_inv.
+Qed.
+
+(* ------------------------------------------------------------------ the Logon exchange after a restart *)
+
+Lemma finalize_accept : forall f w, mtype_eqb (f_type f) TSeqReset = false -> Inv w -> f_seq f = nin w ->
+  cstate_eqb (st w) Awaiting = false ->
+  exists w', finalize f w = (inl tt, w') /\ st w' = st w /\ nin w' = nin w + 1 /\ nout w' = nout w
+             /\ writes (log w') = writes (log w) /\ Inv w'.
+Proof.
+  intros f w Hty HI Hseq Hst. pose proof HI as (Ho & (Hs & Hr & Hp) & Ha).
+  unfold finalize. rewrite Hty. munfold. rewrite Hseq, Z.eqb_refl.
+  assert (Hle : (nin w <=? 0) = false) by lia. rewrite Hle.
+  cbn [st maxres nin nout rl dlv ctor base log past]. rewrite Hst.
+  set (W := mkW (nin w + 1) (nout w) (st w) (rl w) (maxres w) (dlv w) (ctor w) (base w) (log w) (past w)).
+  destruct (persist_in (nin w) W) as [r w'] eqn:E.
+  assert (HoW : Out_ok W) by (eapply Out_ok_ext; [| | |exact Ho]; reflexivity).
+  assert (HaW : AwOk W).
+  { unfold AwOk. cbn [st W]. intro E0. rewrite E0 in Hst. discriminate. }
+  destruct (persist_in_inv W (nin w) r w' HoW Hr Hp eq_refl HaW E) as (I' & R' & N' & L' & B' & P' & C' & Ni' & S').
+  subst r. exists w'. split; [reflexivity|]. split; [exact S'|]. split; [exact Ni'|]. split; [exact N'|].
+  split; [|exact I']. rewrite L', writes_app, writes_stmts, app_nil_r. reflexivity.
+Qed.
+
+Lemma gate_session : forall w m, is_disc (st w) = false -> cstate_eqb (st w) NCE = false ->
+  cstate_eqb (st w) LogonSent = false -> send_gate w m = Some (st w, rl w).
+Proof.
+  intros w m Hd Hn Hl. unfold send_gate. rewrite Hd, Hn, Hl. rewrite andb_false_r. reflexivity.
+Qed.
+
+(* an acceptor with a fresh transport receives the peer's Logon numbered exactly next_num_in *)
+Lemma logon_acceptor : forall w pd a b, Inv w -> st w = NCE ->
+  exists w', process_message (mkF TLogon (nin w) pd a b) w = (inl tt, w') /\ st w' = Active
+             /\ writes (log w') = writes (log w) ++ [mkF TLogon (nout w) false 0 0]
+             /\ nin w' = nin w + 1 /\ nout w' = nout w + 1 /\ Inv w'.
+Proof.
+  intros w pd a b HI Hst. pose proof HI as (Ho & HIn & Ha).
+  set (f := mkF TLogon (nin w) pd a b).
+  unfold process_message. cbv beta iota delta [bind get].
+  assert (Htl : too_low f w = false) by (unfold too_low; cbn [f f_seq]; rewrite Z.ltb_irrefl; reflexivity).
+  rewrite Htl. unfold catch at 1.
+  (* pm_head *)
+  set (wL := mkW (nin w) (nout w) LogonRecv Acceptor (maxres w) (dlv w) (ctor w) (base w) (log w) (past w)).
+  assert (IL : Inv wL).
+  { eapply Inv_live; [|exact HI|]; [live_tac|]. unfold AwOk. cbn. discriminate. }
+  destruct (send_orig_cases (mkF TLogon 0 false 0 0) wL eq_refl (Inv_Out _ IL))
+    as [[_ [Hg|Hg]]|(s & ro & wS & Hg & He & HR & HsS & HrS & HmS & HdS & HnS & HwS)].
+  { rewrite gate_session in Hg by reflexivity. discriminate. }
+  { discriminate. }
+  rewrite gate_session in Hg by reflexivity. inversion Hg; subst s ro. clear Hg.
+  set (wA := mkW (nin wS) (nout wS) Active (rl wS) (maxres wS) (dlv wS) (ctor wS) (base wS) (log wS) (past wS)).
+  assert (IS : Inv wS) by (apply (Rel_Step _ _ IL HR)).
+  assert (IA : Inv wA).
+  { eapply Inv_live; [|exact IS|]; [live_tac|]. unfold AwOk. cbn. discriminate. }
+  assert (HninS : nin wS = nin w) by (rewrite (r_nin _ _ HR); reflexivity).
+  assert (Hhead : pm_head f w = (inl (Some true), wA)).
+  { unfold pm_head. cbv beta iota delta [bind get ret raise assert_ set_st set_rl upd].
+    rewrite Hst. cbn [is_disc cstate_eqb negb f f_type mtype_eqb].
+    cbn [nin nout st rl maxres dlv ctor base log past].
+    fold wL. unfold process_logon. cbv beta iota delta [bind get ret raise assert_ set_st upd].
+    cbn [rl st wL role_eqb cstate_eqb nin f_seq]. rewrite Z.leb_refl. rewrite He.
+    rewrite HninS, Z.eqb_refl. fold wA.
+    cbn [st wA is_disc cstate_eqb]. unfold check_gaps. cbv beta iota delta [bind get ret].
+    cbn [nin wA]. rewrite HninS, Z.ltb_irrefl. reflexivity. }
+  rewrite Hhead. unfold catch, pm_dispatch. cbn [f f_type]. unfold ret at 1.
+  destruct (finalize_accept f wA eq_refl IA) as (w' & Ef & Sf & Nf & Of & Wf & If).
+  { cbn [f f_seq nin wA]. symmetry. exact HninS. }
+  { reflexivity. }
+  exists w'. rewrite Ef. split; [reflexivity|]. split; [rewrite Sf; reflexivity|].
+  split; [rewrite Wf; cbn [log wA]; rewrite HwS; reflexivity|].
+  split; [rewrite Nf; cbn [nin wA]; rewrite HninS; reflexivity|].
+  split; [rewrite Of; cbn [nout wA]; rewrite HnS; reflexivity|exact If].
+Qed.
+
+(* an initiator with a fresh transport sends its Logon and receives the peer's Logon numbered exactly next_num_in *)
+Lemma logon_initiator : forall w pd a b, Inv w -> st w = NCE ->
+  exists w1 w', send_msg (mkF TLogon 0 false 0 0) w = (inl tt, w1)
+             /\ process_message (mkF TLogon (nin w) pd a b) w1 = (inl tt, w') /\ st w' = Active
+             /\ writes (log w') = writes (log w) ++ [mkF TLogon (nout w) false 0 0]
+             /\ nin w' = nin w + 1 /\ nout w' = nout w + 1 /\ Inv w'.
+Proof.
+  intros w pd a b HI Hst. pose proof HI as (Ho & HIn & Ha).
+  destruct (send_orig_cases (mkF TLogon 0 false 0 0) w eq_refl Ho)
+    as [[_ [Hg|Hg]]|(s & ro & wS & Hg & He & HR & HsS & HrS & HmS & HdS & HnS & HwS)].
+  { unfold send_gate in Hg. rewrite Hst in Hg. discriminate. }
+  { discriminate. }
+  unfold send_gate in Hg. rewrite Hst in Hg. cbn in Hg. injection Hg as E1 E2.
+  rewrite <- E1 in HsS. rewrite <- E2 in HrS.
+  exists wS.
+  assert (IS : Inv wS) by (apply (Rel_Step _ _ HI HR)).
+  assert (HninS : nin wS = nin w) by (rewrite (r_nin _ _ HR); reflexivity).
+  set (f := mkF TLogon (nin w) pd a b).
+  set (wA := mkW (nin wS) (nout wS) Active (rl wS) (maxres wS) (dlv wS) (ctor wS) (base wS) (log wS) (past wS)).
+  assert (IA : Inv wA).
+  { eapply Inv_live; [|exact IS|]; [live_tac|]. unfold AwOk. cbn. discriminate. }
+  assert (Hhead : pm_head f wS = (inl (Some true), wA)).
+  { unfold pm_head. cbv beta iota delta [bind get ret raise assert_ set_st set_rl upd].
+    rewrite HsS. cbn [is_disc cstate_eqb negb f f_type mtype_eqb].
+    unfold process_logon. cbv beta iota delta [bind get ret raise assert_ set_st upd].
+    rewrite HrS. cbn [role_eqb f_seq]. rewrite HninS, Z.eqb_refl.
+    fold wA. cbn [st wA is_disc cstate_eqb]. unfold check_gaps. cbv beta iota delta [bind get ret].
+    cbn [nin wA]. rewrite HninS, Z.ltb_irrefl. reflexivity. }
+  assert (Htl : too_low f wS = false) by (unfold too_low; cbn [f f_seq]; rewrite HninS, Z.ltb_irrefl; reflexivity).
+  destruct (finalize_accept f wA eq_refl IA) as (w' & Ef & Sf & Nf & Of & Wf & If).
+  { cbn [f f_seq nin wA]. symmetry. exact HninS. }
+  { reflexivity. }
+  exists w'. split; [exact He|].
+  split.
+  { unfold process_message. cbv beta iota delta [bind get]. rewrite Htl. unfold catch at 1. rewrite Hhead.
+    unfold catch, pm_dispatch. cbn [f f_type]. unfold ret at 1. exact Ef. }
+  split; [rewrite Sf; reflexivity|].
+  split; [rewrite Wf; cbn [log wA]; rewrite HwS; reflexivity|].
+  split; [rewrite Nf; cbn [nin wA]; rewrite HninS; reflexivity|].
+  split; [rewrite Of; cbn [nout wA]; rewrite HnS; reflexivity|exact If].
+Qed.
+
+(* ------------------------------------------------------------------ restart resumes *)
+
+Definition logon_ops (r : role) (n : Z) : list op :=
+  match r with
+  | Acceptor => [OConnect; OIn (mkF TLogon n false 0 0)]
+  | Initiator => [OConnect; OSend (mkF TLogon 0 false 0 0); OIn (mkF TLogon n false 0 0)]
+  end.
+
+Lemma connect_inv : forall w, Inv w -> Inv (run_op w OConnect) /\ st (run_op w OConnect) = NCE
+  /\ nin (run_op w OConnect) = nin w /\ nout (run_op w OConnect) = nout w /\ log (run_op w OConnect) = log w.
+Proof.
+  intros w HI. unfold run_op. cbn [step set_st upd snd]. split; [|repeat split].
+  eapply Inv_live; [|exact HI|]; [live_tac|]. unfold AwOk. cbn. discriminate.
+Qed.
+
+Lemma restart_resumes : forall w, Inv w ->
+  let w' := restart w in
+  nin w' = nin w /\ nout w' = nout w
+  /\ let w2 := run w' (logon_ops (ctor w) (nin w)) in
+     st w2 = Active /\ writes (log w2) = [mkF TLogon (nout w) false 0 0]
+     /\ nin w2 = nin w + 1 /\ nout w2 = nout w + 1 /\ Inv w2.
+Proof.
+  intros w HI. destruct (restart_inv w HI) as (IR & Hn & Ho & _ & _ & Hc & Hl & _).
+  cbv zeta. split; [exact Hn|]. split; [exact Ho|].
+  destruct (connect_inv _ IR) as (IC & SC & NC & OC & LC).
+  set (wc := run_op (restart w) OConnect) in *.
+  destruct (ctor w) eqn:Hr; unfold logon_ops, run; cbn [fold_left]; fold wc.
+  - destruct (logon_initiator wc false 0 0 IC SC) as (w1 & w2 & E1 & E2 & S2 & W2 & N2 & O2 & I2).
+    assert (Hnc : nin wc = nin w) by congruence. rewrite Hnc in E2.
+    assert (A1 : run_op wc (OSend (mkF TLogon 0 false 0 0)) = w1) by (unfold run_op; cbn [step]; rewrite E1; reflexivity).
+    assert (A2 : run_op w1 (OIn (mkF TLogon (nin w) false 0 0)) = w2) by (unfold run_op; cbn [step]; rewrite E2; reflexivity).
+    rewrite A1, A2.
+    split; [exact S2|]. split; [rewrite W2, LC, Hl, OC, Ho; reflexivity|].
+    split; [rewrite N2, NC, Hn; reflexivity|]. split; [rewrite O2, OC, Ho; reflexivity|exact I2].
+  - destruct (logon_acceptor wc false 0 0 IC SC) as (w2 & E2 & S2 & W2 & N2 & O2 & I2).
+    assert (Hnc : nin wc = nin w) by congruence. rewrite Hnc in E2.
+    assert (A2 : run_op wc (OIn (mkF TLogon (nin w) false 0 0)) = w2) by (unfold run_op; cbn [step]; rewrite E2; reflexivity).
+    rewrite A2.
+    split; [exact S2|]. split; [rewrite W2, LC, Hl, OC, Ho; reflexivity|].
+    split; [rewrite N2, NC, Hn; reflexivity|]. split; [rewrite O2, OC, Ho; reflexivity|exact I2].
+Qed.
+
+(* ------------------------------------------------------------------ no number is reused *)
+
+(* every original frame handed to the transport after the first m frames carries a number in [n0, next_num_out) *)
+Definition Wire (n0 : Z) (m : nat) (w : world) : Prop :=
+  (m <= length (allwire w))%nat /\ n0 <= nout w /\
+  forall f, In f (skipn m (allwire w)) -> original f = true -> n0 <= f_seq f < nout w.
+
+Lemma skipn_app_le : forall A (l1 l2 : list A) m, (m <= length l1)%nat -> skipn m (l1 ++ l2) = skipn m l1 ++ l2.
+Proof.
+  intros A l1 l2 m H. rewrite skipn_app. replace (m - length l1)%nat with O by lia. reflexivity.
+Qed.
+
+Lemma wire_op : forall n0 m w o, Inv w -> KF_D11 o = false -> KF_D20 o = false -> KF_D12 w o = false ->
+  Wire n0 m w -> Wire n0 m (run_op w o).
+Proof.
+  intros n0 m w o HI H11 H20 H12 (Hm & Hn & HW).
+  destruct (op_step w o HI H11 H20 H12) as [_ HS].
+  destruct o as [|f|x|b|].
+  5:{ unfold run_op. cbn [step upd snd].
+      destruct (restart_inv w HI) as (_ & _ & Ho & Haw & _). unfold Wire. rewrite Haw, Ho. auto. }
+  all: match goal with |- Wire _ _ (run_op ?ww ?o) =>
+         assert (S : Step ww (run_op ww o)) by (apply HS; discriminate); set (w' := run_op ww o) in * end.
+  all: destruct S as [_ Hmono [l [L Wl]] Hb Hp Hc];
+       assert (Haw : allwire w' = allwire w ++ writes l) by (unfold allwire; rewrite Hp, L, writes_app, app_assoc; reflexivity);
+       unfold Wire; rewrite Haw; (split; [rewrite app_length; lia|]); (split; [lia|]);
+       intros g Hg Hor; rewrite skipn_app_le in Hg by exact Hm; apply in_app_or in Hg; destruct Hg as [Hg|Hg];
+       [specialize (HW g Hg Hor); lia|specialize (Wl g Hg Hor); lia].
+Qed.
+
+Lemma wire_run : forall n0 m h w, Inv w -> class_free w h = true -> Wire n0 m w -> Wire n0 m (run w h).
+Proof.
+  induction h as [|o h IH]; intros w HI Hc HW; cbn [run fold_left]; [exact HW|].
+  cbn [class_free] in Hc. apply andb_prop in Hc. destruct Hc as [Hc Hrest].
+  apply andb_prop in Hc. destruct Hc as [Hc H12]. apply andb_prop in Hc. destruct Hc as [H11 H20].
+  apply negb_true_iff in H11, H20, H12.
+  apply IH; [exact (proj1 (op_step w o HI H11 H20 H12))|exact Hrest|apply wire_op; auto].
+Qed.
+
+Lemma crash_at_all : forall w, crash_at (length (log w)) w = restart w.
+Proof. intros w. unfold crash_at, restart, db, allwire. rewrite firstn_all. reflexivity. Qed.
+
+Lemma no_number_reuse : forall r h m w1,
+  class_free (fresh r) h = true -> own_number m = false ->
+  let w := run (fresh r) h in
+  send_msg m w = (inl tt, w1) ->
+  let w2 := crash_at (length (log w1)) w1 in
+  writes (log w1) = writes (log w) ++ [out_frame m (nout w)]
+  /\ nin w2 = nin w /\ nout w2 = nout w + 1
+  /\ forall h', class_free w2 h' = true ->
+       forall f, In f (skipn (length (allwire w2)) (allwire (run w2 h'))) -> original f = true -> nout w < f_seq f.
+Proof.
+  intros r h m w1 Hc Hm w Hs w2.
+  assert (HI : Inv w) by (apply run_inv; auto using fresh_inv).
+  destruct (send_orig_cases m w Hm (Inv_Out _ HI)) as [[He _]|(s & ro & W' & _ & He & HR & _ & _ & _ & _ & Hn & Hw)];
+    rewrite He in Hs; inversion Hs; subst W'. clear Hs.
+  assert (I1 : Inv w1) by (apply (Rel_Step _ _ HI HR)).
+  unfold w2. rewrite crash_at_all.
+  destruct (restart_inv w1 I1) as (I2 & N2 & O2 & A2 & _).
+  split; [exact Hw|]. split; [rewrite N2; apply HR|]. split; [rewrite O2; exact Hn|].
+  intros h' Hc' f Hf Hor.
+  assert (HW : Wire (nout (restart w1)) (length (allwire (restart w1))) (restart w1)).
+  { split; [lia|]. split; [lia|]. intros g Hg. rewrite skipn_all in Hg. contradiction. }
+  destruct (wire_run _ _ h' _ I2 Hc' HW) as (_ & _ & K).
+  specialize (K f Hf Hor). lia.
+Qed.
+
+(* ------------------------------------------------------------------ statements over class-free histories *)
+
+Lemma invariant_partial : forall r h, class_free (fresh r) h = true -> Inv (run (fresh r) h).
+Proof. intros. apply run_inv; auto using fresh_inv. Qed.
+
+Lemma restart_counters : forall w, clean w -> Stored_eq w -> nin (restart w) = nin w /\ nout (restart w) = nout w.
+Proof.
+  intros w Hc [Hi Ho]. unfold restart. cbn [boot nin nout]. rewrite Hc. split; assumption.
+Qed.
+
+Lemma restart_resumes_history : forall r h, class_free (fresh r) h = true ->
+  let w := run (fresh r) h in
+  let w' := restart w in
+  nin w' = nin w /\ nout w' = nout w
+  /\ let w2 := run w' (logon_ops (ctor w) (nin w)) in
+     st w2 = Active /\ writes (log w2) = [mkF TLogon (nout w) false 0 0]
+     /\ nin w2 = nin w + 1 /\ nout w2 = nout w + 1 /\ Inv w2.
+Proof. intros r h H. apply restart_resumes. apply invariant_partial; auto. Qed.
+
+(* ------------------------------------------------------------------ witnesses *)
+
+Definition app_frame (n body : Z) : frame := mkF TApp n false body 0.
+Definition logon_frame (n : Z) : frame := mkF TLogon n false 0 0.
+Definition acc_logon : list op := [OConnect; OIn (logon_frame 1)].
+
+Definition has_resend (l : list frame) : bool := existsb (fun f => mtype_eqb (f_type f) TResend) l.
+
+(* numbers of the frames the peer sent, in order *)
+Fixpoint inbound_seqs (h : list op) : list Z :=
+  match h with
+  | [] => []
+  | OIn f :: h' => f_seq f :: inbound_seqs h'
+  | _ :: h' => inbound_seqs h'
+  end.
+
+(* D11: a gap fill 2 -> 6 as the next frame *)
+Definition w_d11 : list op := acc_logon.
+Definition o_d11 : op := OIn (mkF TSeqReset 2 false 6 1).
+
+Lemma gapfill_lag_refuted :
+  exists r h o, class_free (fresh r) h = true /\ KF_D11 o = true /\
+    let w := run (fresh r) (h ++ [o]) in
+    ~ Stored_eq w /\ nin w = 6 /\ sin (jt w) = 2 /\ nin (restart w) = 3
+    /\ has_resend (writes (log (run (restart w) (logon_ops r 6)))) = true.
+Proof.
+  exists Acceptor, w_d11, o_d11. split; [vm_compute; reflexivity|]. split; [vm_compute; reflexivity|].
+  cbv zeta. split; [|vm_compute; repeat split; reflexivity].
+  intros [H _]. vm_compute in H. discriminate.
+Qed.
+
+(* D12: the second ResendRequest meets a journaled PossDup copy after one replay *)
+Definition w_d12 : list op :=
+  acc_logon ++ [OSend (app_frame 0 1); OSend (app_frame 0 2); OIn (mkF TResend 2 false 3 0)].
+Definition o_d12 : op := OIn (mkF TResend 3 false 2 0).
+
+Lemma resend_abort_refuted :
+  exists r h o, class_free (fresh r) h = true /\ KF_D12 (run (fresh r) h) o = true /\
+    let w0 := run (fresh r) h in let w := run_op w0 o in
+    ~ Stored_eq w /\ nout w0 = 4 /\ nout w = 2 /\ sout (jt w) = 2 /\ st w = Handling.
+Proof.
+  exists Acceptor, w_d12, o_d12. split; [vm_compute; reflexivity|]. split; [vm_compute; reflexivity|].
+  cbv zeta. split; [|vm_compute; repeat split; reflexivity].
+  intros [_ H]. vm_compute in H. discriminate.
+Qed.
+
+(* D20: the application sends SequenceReset(34 = next_num_out) *)
+Definition o_d20 : op := OSend (mkF TSeqReset 2 false 5 1).
+
+Lemma app_seqreset_refuted :
+  exists r h o, class_free (fresh r) h = true /\ KF_D20 o = true /\
+    let w := run (fresh r) (h ++ [o]) in
+    ~ Stored_eq w /\ nout w = 2 /\ sout (jt w) = 2 /\ nout (restart w) = 3.
+Proof.
+  exists Acceptor, acc_logon, o_d20. split; [vm_compute; reflexivity|]. split; [vm_compute; reflexivity|].
+  cbv zeta. split; [|vm_compute; repeat split; reflexivity].
+  intros [_ H]. vm_compute in H. discriminate.
+Qed.
+
+(* D22: the peer's Logout is in sequence, outside every class, and not counted *)
+Definition h_d22 : list op := acc_logon ++ [OIn (mkF TLogout 2 false 0 0)].
+
+Lemma peer_logout_uncounted_refuted :
+  exists r h, class_free (fresh r) h = true /\ inbound_seqs h = [1; 2] /\
+    let w := run (fresh r) h in
+    Stored_eq w /\ nin w = 2 /\ nin (restart w) = 2
+    /\ let w2 := run (restart w) (logon_ops r 3) in
+       has_resend (writes (log w2)) = true /\ st w2 = Awaiting.
+Proof.
+  exists Acceptor, h_d22. split; [vm_compute; reflexivity|]. split; [reflexivity|].
+  cbv zeta. split; [split; vm_compute; reflexivity|]. vm_compute. repeat split; reflexivity.
+Qed.
+
+(* D14: death after the transport write of a send, before its journal write *)
+Definition h_d14 : list op := acc_logon.
+Definition m_d14 : frame := app_frame 0 9.
+
+Lemma crash_before_journal_refuted :
+  exists r h m k h', class_free (fresh r) h = true /\ own_number m = false /\
+    let w := run (fresh r) h in
+    exists w1, send_msg m w = (inl tt, w1) /\
+    (length (log w) < k < length (log w1))%nat /\
+    In (EWrite (out_frame m (nout w))) (firstn k (log w1)) /\
+    let w2 := crash_at k w1 in
+    nout w2 = nout w /\
+    exists f_old f_new, In f_old (allwire w2) /\ In f_new (writes (log (run w2 h')))
+      /\ original f_old = true /\ original f_new = true /\ f_seq f_old = f_seq f_new /\ f_old <> f_new.
+Proof.
+  exists Acceptor, h_d14, m_d14, 9%nat, [OConnect; OIn (logon_frame 2); OSend (app_frame 0 10)].
+  split; [vm_compute; reflexivity|]. split; [reflexivity|]. cbv zeta.
+  eexists. split; [vm_compute; reflexivity|].
+  split; [vm_compute; lia|]. split; [vm_compute; auto 12|].
+  split; [vm_compute; reflexivity|].
+  exists (app_frame 2 9), (logon_frame 2).
+  split; [vm_compute; auto|]. split; [vm_compute; auto|].
+  repeat split; try reflexivity. discriminate.
+Qed.
+
+(* what a duplicate inbound row does: the live counter advances, the journal does not, the error escapes *)
+Lemma duplicate_inbound_row_example :
+  let w := run (fresh Acceptor) (acc_logon ++ [OIn (mkF TSeqReset 2 false 2 1)]) in
+  nin w = 2 /\ sin (jt w) = 2 /\ has_in (jt w) 2 = true /\
+  let (r, w') := step (OIn (app_frame 2 1)) w in
+  r = inr XDup /\ nin w' = 3 /\ sin (jt w') = 2 /\ rin (jt w') = rin (jt w).
+Proof. vm_compute. repeat split; reflexivity. Qed.
+
+(* non-vacuity: a class-free history with a gap, our ResendRequest, replay, single-number gap fills, a
+   TestRequest answered, a peer ResendRequest serviced completely (two counter statements), a restart,
+   the next Logon exchange and a send *)
+Definition h_nonvac : list op :=
+  acc_logon ++
+  [OIn (app_frame 5 1); OIn (mkF TApp 2 true 2 0); OIn (mkF TSeqReset 3 true 4 1); OIn (mkF TSeqReset 4 true 5 1);
+   OIn (mkF TSeqReset 5 true 6 1); OIn (app_frame 6 3); OSend (app_frame 0 7); OIn (mkF TTest 7 false 77 0);
+   OIn (mkF TResend 8 false 2 0); ORestart; OConnect; OIn (logon_frame 9); OSend (app_frame 0 8)].
+
+Lemma nonvacuous :
+  class_free (fresh Acceptor) h_nonvac = true
+  /\ count_both (new_effects (run (fresh Acceptor) (firstn 10 h_nonvac)) (OIn (mkF TResend 8 false 2 0))) = 2%nat
+  /\ let w := run (fresh Acceptor) h_nonvac in
+     nin w = 10 /\ nout w = 7 /\ sin (jt w) = 9 /\ sout (jt w) = 6 /\ st w = Active /\ dlv w = [].
+Proof. vm_compute. repeat split; reflexivity. Qed.
+
+(* ------------------------------------------------------------------ every in-sequence plain frame is counted *)
+
+Lemma finalize_counts : forall f w r w', mtype_eqb (f_type f) TSeqReset = false -> Inv w -> f_seq f = nin w ->
+  finalize f w = (r, w') -> r = inl tt /\ nin w' = nin w + 1 /\ sin (jt w') = nin w /\ Inv w'.
+Proof.
+  intros f w r w' Hty HI Hseq H. pose proof HI as (Ho & (Hs & Hr & Hp) & Ha).
+  unfold finalize in H. rewrite Hty in H. munfold_in H. rewrite Hseq, Z.eqb_refl in H.
+  assert (Hle : (nin w <=? 0) = false) by lia. rewrite Hle in H.
+  cbn [st maxres nin nout rl dlv ctor base log past] in H.
+  assert (Hgen : forall W, nout W = nout w -> base W = base w -> log W = log w ->
+                 nin W = nin w + 1 -> AwOk W -> persist_in (nin w) W = (r, w') ->
+                 r = inl tt /\ nin w' = nin w + 1 /\ sin (jt w') = nin w /\ Inv w').
+  { intros W Hn Hb Hl Hni HaW HP.
+    assert (HoW : Out_ok W) by (eapply Out_ok_ext; [| | |exact Ho]; auto).
+    assert (HjW : jt W = jt w) by (unfold jt, db; rewrite Hb, Hl; reflexivity).
+    assert (HrW : forall k, In k (rin (jt W)) -> k < nin w) by (rewrite HjW; exact Hr).
+    destruct (persist_in_inv W (nin w) r w' HoW HrW Hp Hni HaW HP) as (I' & R' & _ & _ & _ & _ & _ & Ni' & _).
+    split; [exact R'|]. split; [exact Ni'|]. split; [|exact I'].
+    destruct I' as (_ & (Hs' & _) & _). lia. }
+  destruct (cstate_eqb (st w) Awaiting) eqn:Hst.
+  - assert (Hmx : 0 < maxres w). { apply Ha. destruct (st w); try discriminate; reflexivity. }
+    assert (Hmb : (0 <? maxres w) = true) by lia. rewrite Hmb in H.
+    destruct (maxres w <=? nin w).
+    + eapply Hgen; [| | | | |exact H]; try reflexivity. unfold AwOk. cbn. discriminate.
+    + eapply Hgen; [| | | | |exact H]; try reflexivity. unfold AwOk. cbn. auto.
+  - eapply Hgen; [| | | | |exact H]; try reflexivity. unfold AwOk. cbn. intro E. rewrite E in Hst. discriminate.
+Qed.
+
+Definition plain_type (t : mtype) : bool :=
+  match t with TApp | THb | TTest => true | _ => false end.
+
+Lemma pm_head_plain : forall f w, plain_type (f_type f) = true -> f_seq f = nin w ->
+  is_disc (st w) = false -> cstate_eqb (st w) NCE = false ->
+  pm_head f w = (inl (Some true), w).
+Proof.
+  intros f w Hp Hseq Hd Hn. unfold pm_head.
+  destruct (f_type f); try discriminate;
+    cbv beta iota delta [bind get ret raise assert_ set_st set_rl upd];
+    rewrite Hd, Hn; cbn [negb]; rewrite Hd; unfold check_gaps; cbv beta iota delta [bind get ret];
+    rewrite Hseq, Z.ltb_irrefl; reflexivity.
+Qed.
+
+(* on an established connection (any state past NETWORK_CONN_ESTABLISHED) every in-sequence application message,
+   Heartbeat and TestRequest is counted and journaled - the counterpart of D22, where a Logout is not *)
+Lemma accepted_counted : forall f w, Inv w -> plain_type (f_type f) = true -> f_seq f = nin w ->
+  is_disc (st w) = false -> cstate_eqb (st w) NCE = false ->
+  let w' := run_op w (OIn f) in
+  nin w' = nin w + 1 /\ sin (jt w') = nin w /\ Inv w'.
+Proof.
+  intros f w HI Hp Hseq Hd Hn. cbv zeta. unfold run_op. cbn [step].
+  assert (Hs : mtype_eqb (f_type f) TSeqReset = false) by (destruct (f_type f); try discriminate; reflexivity).
+  assert (Hr : mtype_eqb (f_type f) TResend = false) by (destruct (f_type f); try discriminate; reflexivity).
+  destruct (process_message f w) as [r w'] eqn:E. cbn [snd].
+  unfold process_message in E. cbv beta iota delta [bind get] in E.
+  assert (Htl : too_low f w = false) by (unfold too_low; rewrite Hseq, Z.ltb_irrefl; reflexivity).
+  rewrite Htl in E. unfold catch at 1 in E. rewrite (pm_head_plain f w Hp Hseq Hd Hn) in E.
+  unfold catch in E. destruct (pm_dispatch f true w) as [d w2] eqn:Ed.
+  assert (R2 : Rel w w2) by (eapply RelM_pm_dispatch; eauto using Inv_Out, Inv_nin).
+  assert (I2 : Inv w2) by (apply (Rel_Step _ _ HI R2)).
+  assert (Hseq2 : f_seq f = nin w2) by (rewrite (r_nin _ _ R2); exact Hseq).
+  destruct (finalize_counts f w2 r w' Hs I2 Hseq2 E) as (_ & N3 & S3 & I3).
+  rewrite N3, S3, (r_nin _ _ R2). auto.
 Qed.
